@@ -32,7 +32,10 @@ RULE = ("documents: a catalogue of ~60 shapes (anchored / aliased scalars, seque
         "(plain / inverted) + a term of words and the symbols space [ ] ' \" backslash, each symbol written as backslash + "
         "symbol; over a document holding the term text, the text without the symbols, the written form and prefixed / "
         "suffixed variants, judged by Python's ==, startswith, endswith, in: exactly the satisfying values are reported, once, "
-        "each path resolving to its value (both notations, a quarter also through main()).  distinct & non-trivial = distinct (document, term, options) cases with a non-empty result.")
+        "each path resolving to its value (both notations, a quarter also through main()).  Several expressions in one run: 1-3 --search and 0-2 --except expressions "
+        "(term grid, a fifth inverted) over catalogue documents (anchored ones preferred) and random documents x a random option mix, "
+        "ONE yaml_paths.main() run; judged expression by expression against the model's answer for each expression ALONE: printed = "
+        "the ordered union of the searches' lists, each path once, minus the paths of the exceptions.  distinct & non-trivial = distinct (document, term, options) cases with a non-empty result.")
 
 N_RANDOM_DOCS = {"quick": 2600, "thorough": 40000}
 PER_DOC = {"quick": 40, "thorough": 60}
@@ -573,6 +576,140 @@ def multi_chunk(job):
     return stats, viol[:20], disag[:20]
 
 
+# --------------------------------------------------------------------------- several expressions in one run
+
+def mexpr_chunk(job):
+    """job: [(source doc, [search terms, 1-3], [except terms, 0-2], opts)] — ONE yaml_paths.main() run with every
+    `--search` and `--except` expression (`--nofile --noexpression`).  Oracle: each expression on its own (the model's
+    de-duplicated list for that expression alone, nothing shared between expressions): the run must print, in order and
+    once each, every path demanded for any of the search expressions, minus the paths demanded for an except
+    expression — a value satisfying the 2nd or 3rd expression is owed a path exactly as if that expression stood
+    first."""
+    from yamlpath.commands import yaml_paths as yp
+    from yamlpath.common import Parsers
+    drv = core.Driver()
+    stats = {"n": 0, "skipped": 0, "nonempty": 0, "later_only": 0, "excepted": 0}
+    viol, disag = [], []
+
+    def expr_of(term):
+        return ("!" if term["inv"] else "") + sg.OPS[term["m"]] + (
+            term["term"] if term["m"] != "REGEX" else "/" + term["term"] + "/")
+
+    with tempfile.TemporaryDirectory(prefix="ypv-c07-") as td:
+        prepared = []
+        for n, (src, sterms, xterms, opts) in enumerate(job):
+            if any(t["m"] == "REGEX" and "/" in t["term"] for t in sterms + xterms):
+                stats["skipped"] += 1
+                continue
+            fn = os.path.join(td, "x%d.yaml" % n)
+            try:
+                root = sg.build(src)
+                with open(fn, "w", encoding="utf-8") as fh:
+                    Parsers.get_yaml_editor().dump(root, fh)
+                with contextlib.redirect_stderr(io.StringIO()), contextlib.redirect_stdout(io.StringIO()):
+                    (data, ok) = Parsers.get_yaml_data(Parsers.get_yaml_editor(), core.quiet_logger(), fn)
+                if not ok:
+                    stats["skipped"] += 1
+                    continue
+                mj = sg.to_model_json(data, sg.real_all_anchors(data))
+            except Exception:
+                stats["skipped"] += 1
+                continue
+            prepared.append({"src": src, "sterms": sterms, "xterms": xterms, "opts": opts, "fn": fn, "mj": mj,
+                             "exprs": [expr_of(t) for t in sterms + xterms]})
+        flat = [(pi, x) for pi, p_ in enumerate(prepared) for x in p_["exprs"]]
+        tms = drv.ask([{"op": "C07.term", "x": x} for _pi, x in flat])
+        for (pi, _x), tm in zip(flat, tms):
+            prepared[pi].setdefault("tms", []).append(tm)
+        stats["skipped"] += sum(1 for p_ in prepared if not all("m" in tm for tm in p_["tms"]))
+        prepared = [p_ for p_ in prepared if all("m" in tm for tm in p_["tms"])]
+        need = [pi for pi, p_ in enumerate(prepared) if any(tm["m"] == "REGEX" for tm in p_["tms"])]
+        texts = {}
+        for pi, ans in zip(need, drv.ask([{"op": "C07.texts", "doc": prepared[pi]["mj"]} for pi in need])):
+            texts[pi] = ans["texts"]
+        reqs, owner = [], []
+        for pi, p_ in enumerate(prepared):
+            for tm in p_["tms"]:
+                r = {"op": "C07.search", "doc": p_["mj"], "term": {"inv": tm["inv"], "m": tm["m"], "term": tm["term"]},
+                     "opts": {k: p_["opts"][k] for k in ("sv", "sk", "sa", "ika", "iva", "expand", "fslash")}}
+                if tm["m"] == "REGEX":
+                    r["rx"] = [[tm["term"], tx, cc.rx_answer(tm["term"], tx)] for tx in texts[pi]]
+                reqs.append(r)
+                owner.append(pi)
+        answers = {}
+        for pi, mo in zip(owner, drv.ask(reqs)):
+            answers.setdefault(pi, []).append(mo)
+        for pi, p_ in enumerate(prepared):
+            opts, mos = p_["opts"], answers[pi]
+            ns = len(p_["sterms"])
+            case = {"doc": p_["src"], "search": p_["sterms"], "except": p_["xterms"], "opts": opts, "via": "main-multiexpr"}
+            if any(mo.get("oom") for mo in mos):
+                stats["skipped"] += 1
+                continue
+            per_expr = [mo["dedup"] for mo in mos]
+            union = []
+            for lst in per_expr[:ns]:
+                for x in lst:
+                    if x not in union:
+                        union.append(x)
+            excepted = set(x for lst in per_expr[ns:] for x in lst)
+            want = [x for x in union if x not in excepted]
+            argv = ["yaml-paths", "--nostdin", "--nofile", "--noexpression", "--pathsep=" + ("/" if opts["fslash"] else "."),
+                    {"values": "--ignorekeynames", "keys": "--keynames", "keysonly": "--onlykeynames"}[opts["km"]],
+                    {"anchorsonly": "--anchorsonly", "keyaliases": "--allowkeyaliases", "valuealiases": "--allowvaluealiases",
+                     "allaliases": "--allowaliases"}[opts["am"]]]
+            if opts["sa"]:
+                argv.append("--refnames")
+            if opts["expand"]:
+                argv.append("--expand")
+            for x in p_["exprs"][:ns]:
+                argv += ["--search", x]
+            for x in p_["exprs"][ns:]:
+                argv += ["--except", x]
+            argv.append(p_["fn"])
+            out = io.StringIO()
+            old = sys.argv
+
+            def go():
+                sys.argv = argv
+                try:
+                    with contextlib.redirect_stdout(out), contextlib.redirect_stderr(io.StringIO()):
+                        yp.main()
+                except SystemExit as e:
+                    return e.code
+                finally:
+                    sys.argv = old
+                return 0
+            st, val = sg.guarded(go, 30.0)
+            stats["n"] += 1
+            if st != "ok":
+                what = "timeout" if st == "timeout" else core.exc_class(val)
+                viol.append(("main-crash:%s" % what, "yaml-paths %s ended with %s" % (argv[1:-1], what), case))
+                continue
+            if val not in (0, None):
+                viol.append(("main-exit:%s" % val, "yaml-paths %s exited %s" % (argv[1:-1], val), case))
+                continue
+            lines = out.getvalue().split("\n")
+            if lines and lines[-1] == "":
+                lines.pop()
+            if lines != want:
+                missing = [x for x in want if x not in lines]
+                extra = [x for x in lines if x not in want]
+                kind = ("extra" if extra else "") + ("+" if extra and missing else "") + ("missing" if missing else "") or "order"
+                viol.append(("main-multiexpr-%s:%s%s" % (kind, opt_sig(opts), ":except" if p_["xterms"] else ""),
+                             "yaml-paths %s printed %r; expression by expression the specification demands %r for the searches and %r "
+                             "for the exceptions, i.e. %r (not reported: %r; not demanded: %r)" % (
+                                 argv[1:-1], lines, per_expr[:ns], per_expr[ns:], want, missing, extra), case))
+                continue
+            if want:
+                stats["nonempty"] += 1
+            if ns > 1 and any(x not in per_expr[0] for lst in per_expr[1:ns] for x in lst):
+                stats["later_only"] += 1     # some path is owed to a later expression only
+            if excepted & set(union):
+                stats["excepted"] += 1
+    return stats, viol[:20], disag[:20]
+
+
 # --------------------------------------------------------------------------- expressions with backslash escapes
 
 ESC_WORDS = ["hello", "world", "a", "b", "it", "s", "alpha"]
@@ -723,6 +860,8 @@ def _dispatch(job):
         return ("multi", multi_chunk(payload))
     if kind == "escaped":
         return ("escaped", escape_chunk(payload))
+    if kind == "mexpr":
+        return ("mexpr", mexpr_chunk(payload))
     return ("main", main_chunk(payload))
 
 
@@ -795,6 +934,26 @@ def build_jobs(chk, tier):
     for i in range(700 if tier == "quick" else 8000):
         esc.append((esc_term(rng2), rng2.choice(sorted(ESC_OPS)), rng2.random() < 0.25, rng2.random() < 0.5, i % 4 == 0))
     jobs += [("escaped", c) for c in core.chunked(esc, 16)]
+    # several --search / --except expressions in one run (own random stream)
+    rng3 = random.Random(chk.seed * 17 + 3)
+    def has_anchor(d):
+        try:
+            root = sg.build(d)
+            return sg.doc_flags(sg.to_model_json(root, sg.real_all_anchors(root)))["anchors"] > 0
+        except Exception:
+            return False
+    anchored = [d for d in cat if has_anchor(d)]
+    mx = []
+    for _ in range(700 if tier == "quick" else 6000):
+        r = rng3.random()
+        d = rng3.choice(anchored) if r < 0.3 else rng3.choice(cat) if r < 0.45 else sg.gen_doc(rng3, depth=rng3.choice([2, 3]), odd=0.03)
+        def tm():
+            m, t = rng3.choice(TERM_GRID)
+            return {"inv": rng3.random() < 0.2, "m": m, "term": t}
+        sterms = [tm() for _n in range(rng3.choice([1, 2, 2, 2, 3]))]
+        xterms = [tm() for _n in range(rng3.choice([0, 0, 0, 1, 1, 2]))]
+        mx.append((d, sterms, xterms, rng3.choice(opts)))
+    jobs += [("mexpr", c) for c in core.chunked(mx, 32)]
     return jobs
 
 
@@ -845,6 +1004,8 @@ def run(chk: core.Check, tier=None):
             jobs = [("multi", [(c["docs"], c["term"], c["opts"])])]
         elif c.get("kind") == "escaped":
             jobs = [("escaped", [(c["t"], c["op"], c["inv"], c["fslash"], c["main"])])]
+        elif c.get("via") == "main-multiexpr":
+            jobs = [("mexpr", [(c["doc"], c["search"], c["except"], c["opts"])])]
         else:
             jobs = [("search", [(c["doc"], [(c["term"], c["opts"])])])]
         results = [_dispatch(j) for j in jobs]
@@ -880,6 +1041,14 @@ def run(chk: core.Check, tier=None):
             chk.count("multidoc:nonempty", stats["nonempty"])
             chk.count("multidoc:same-path-in-two-documents", stats["shared"])
             chk.count("multidoc:skipped", stats["skipped"])
+        elif kind == "mexpr":
+            stats, viol, disag = res
+            chk.evaluations += stats["n"]
+            chk.count("multiexpr:runs", stats["n"])
+            chk.count("multiexpr:nonempty", stats["nonempty"])
+            chk.count("multiexpr:path-owed-to-a-later-expression-only", stats["later_only"])
+            chk.count("multiexpr:except-removes-something", stats["excepted"])
+            chk.count("multiexpr:skipped", stats["skipped"])
         elif kind == "escaped":
             stats, viol, disag = res
             chk.evaluations += stats["n"]
